@@ -60,6 +60,10 @@ PROPERTIES = {
     "C10": {"scans": [_scans_engine]},
     "C11": {},
     "C13": {},
+    "C07": {"lemmas": [lambda: __import__("contracts.signature", fromlist=["x"]).scan_signature_cache_key()],
+            "assumptions": ["inspect.Signature validity (kind order, distinct names) as a precondition of bind_expected",
+                            "inspect.BoundArguments.args/.kwargs (how a binding is turned into a call) are CPython's",
+                            "callable_method / attr_method / event_method adapters (dispatcher.py) are not under contract yet"]},
     "C09": {"assumptions": [
         "REACH is the least relation closed under 'start' and 'transition target': the induction principle is applied once, to the set yielded by visit_connected_states (Visit.derived); closedness of that set is a discharged postcondition",
         "State objects are compared by identity in sets/dicts (State.__hash__/__eq__ consistent, (name,id) pairs distinct)",
